@@ -11,6 +11,7 @@ import (
 	"encoding/binary"
 	"fmt"
 	"math/big"
+	"net"
 	"strings"
 	"sync"
 	"time"
@@ -92,11 +93,31 @@ func c11Server(rec *script.Rec, cfg string, limit ...int) (*harness.One, error) 
 		opts = append(opts, wire.TLSConfig(cfg))
 	}
 	rec.Extra = copyHandler
+	if c11Local != nil {
+		// the transport reports this local address (a unix-domain socket, a TCP address) instead of the in-memory one
+		srv, err := harness.NewServer(rec.ParseFn(), opts...)
+		if err != nil {
+			return nil, err
+		}
+		mc := memnet.NewConn("mem:client1")
+		mc.LocalOverride = c11Local
+		rec.Conn = nil
+		return &harness.One{Server: srv, Conn: srv.ConnectWith(mc)}, nil
+	}
 	one, err := harness.StartOne(rec.ParseFn(), opts...)
 	if err == nil {
 		rec.Conn = nil // the plaintext offsets are meaningless under TLS
 	}
 	return one, err
+}
+
+// c11Local, when set, is the local address the transport of the next c11Server connection reports.
+var c11Local net.Addr
+
+var c11Locals = map[string]net.Addr{
+	"unix socket": &net.UnixAddr{Name: "/var/run/postgresql/.s.PGSQL.5432", Net: "unix"},
+	"tcp6":        &net.TCPAddr{IP: net.ParseIP("::1"), Port: 5432},
+	"tcp4":        &net.TCPAddr{IP: net.IPv4(127, 0, 0, 1), Port: 5432},
 }
 
 // checkTLSRecords verifies that b is a sequence of complete, well-formed TLS records.
@@ -142,6 +163,8 @@ type c11Case struct {
 	// CloseDuring: Server.Close is called (by another goroutine) while a statement of the session is half-way
 	// through its rows (at its yield point); the statement goes on once Close is waiting for it
 	CloseDuring bool
+	// Local: the kind of local address the transport reports ("" = in-memory); see c11Locals
+	Local string
 }
 
 // c11CloseHook arms the recorder: at the first yield point of a statement Server.Close is called concurrently.
@@ -162,6 +185,9 @@ func (c c11Case) String() string {
 	}
 	if c.Pipelined {
 		return fmt.Sprintf("tls=%s auth=%s client=%s session=%v sent in one write together with the start-up packet", c.Cfg, c.Auth, c.Behave, names)
+	}
+	if c.Local != "" {
+		return fmt.Sprintf("tls=%s auth=%s client=%s session=%v, the connection arrived over a %s (local address %v)", c.Cfg, c.Auth, c.Behave, names, c.Local, c11Locals[c.Local])
 	}
 	if c.CloseDuring {
 		return fmt.Sprintf("tls=%s auth=%s client=%s session=%v, Server.Close is called while the statement is half-way through its rows", c.Cfg, c.Auth, c.Behave, names)
@@ -232,6 +258,8 @@ var c11Last *harness.Server
 // c11Run: a connection the watchdog gave up on leaves a goroutine of the library behind (and every later wait
 // on this process would take a watchdog period): the worker retires after such a case.
 func c11Run(c c11Case) explore.Result {
+	c11Local = c11Locals[c.Local]
+	defer func() { c11Local = nil }()
 	c11Last = nil
 	res := c11RunInner(c)
 	if c11Last != nil && c11Last.AnyWedged() {
@@ -571,6 +599,9 @@ func init() {
 		Enumerate:        c11Enumerate,
 		Bounds:           func(tier string) map[string]any { return map[string]any{"session_depth": c11Depth(tier)} },
 		RequiredOutcomes: []string{"upgraded", "refused", "plaintext-instead-of-handshake", "cancel-inside-tls"},
+		// schedule part: two servers of one process (one with, one without certificates) answering an SSLRequest at
+		// the same time: all schedules with <= 2 preemptions (thorough: all), race monitor on
+		After: explore.MergeSched("C11", true),
 	})
 }
 
@@ -598,6 +629,15 @@ func c11Enumerate(tier string, emit explore.Emit) {
 		for _, b := range []string{"plaintext-instead", "second-ssl", "cancel-after"} {
 			c := c11Case{Cfg: cfg, Behave: b, Hist: []c11Letter{letters[0]}}
 			emit(explore.Case{Family: "tls", Size: 1, Desc: func() any { return c.String() }, Run: func() explore.Result { return c11Run(c) }})
+		}
+	}
+	// the kind of listener does not matter: with certificates an SSLRequest is answered S over a unix-domain socket too
+	for _, cfg := range []string{"certs", "nil"} {
+		for _, local := range []string{"unix socket", "tcp6", "tcp4"} {
+			for _, auth := range []string{"", "good"} {
+				c := c11Case{Cfg: cfg, Behave: "session", Auth: auth, Local: local, Hist: []c11Letter{letters[0]}}
+				emit(explore.Case{Family: "tls", Size: 2, Desc: func() any { return c.String() }, Run: func() explore.Result { return c11Run(c) }})
+			}
 		}
 	}
 	// Server.Close while a statement of the (upgraded / refused / plaintext) session is half-way through its rows
